@@ -275,41 +275,17 @@ Section Cycles.
         - intros Hb. rewrite (Hs _ Hb) in Ed. discriminate.
         - intros st' id E. now injection E as <- _. }
       destruct (fold_inputs f (n_inputs nd) IHf st [] Hs) as [Hok Hbad].
-      assert (Hfail : B name -> exists e,
-                 match fold_left (step_of f) (n_inputs nd) (inl (st, [])) with
-                 | inr e => inr e
-                 | inl (st1, inkeys) =>
-                     match cls classes (n_cls nd) with
-                     | inr e => inr e
-                     | inl tc =>
-                         match task_key H (n_ns nd) (n_params nd) inkeys with
-                         | inr e => inr e
-                         | inl key =>
-                             match reg_find (c_slug tc) key (ps_registry st1) with
-                             | Some id =>
-                                 inl ({| ps_objs := ps_objs st1; ps_registry := ps_registry st1;
-                                         ps_new := dset name id (ps_new st1) |}, id)
-                             | None =>
-                                 let id := List.length (ps_objs st1) in
-                                 inl ({| ps_objs := ps_objs st1 ++
-                                           [{| o_cls := n_cls nd; o_cfg := n_cfg nd; o_ns := n_ns nd; o_fullname := name;
-                                               o_params := n_params nd; o_inkeys := inkeys; o_key := key; o_inputs := [] |}];
-                                         ps_registry := ps_registry st1 ++ [(c_slug tc, key, id)];
-                                         ps_new := dset name id (ps_new st1) |}, id)
-                             end
-                         end
-                     end
-                 end = @inr (pstate * nat) err e).
+      split.
       { intros Hb. destruct (Hbad (B_closed _ Hb _ En)) as [e He]. rewrite He. eauto. }
-      split; [exact Hfail|].
       intros st' id E.
       destruct (fold_left (step_of f) (n_inputs nd) (inl (st, []))) as [[st1 inkeys]|e] eqn:Ef; [|discriminate].
       specialize (Hok _ _ eq_refl).
       intros n Hb.
       destruct (str_eq_dec n name) as [->|Hne].
-      { destruct (Hbad (B_closed _ Hb _ En)) as [e He]. try rewrite Ef in He. discriminate. }
+      { destruct (Hbad (B_closed _ Hb _ En)) as [e He]. discriminate. }
       destruct (cls classes (n_cls nd)) as [tc|e]; [|discriminate].
       destruct (task_key H (n_ns nd) (n_params nd) inkeys) as [key|e]; [|discriminate].
+      unfold register in E.
       destruct (reg_find (c_slug tc) key (ps_registry st1)) as [id1|]; injection E as <- _; cbn [ps_new];
         rewrite dget_dset_other by assumption; now apply Hok.
   Qed.
